@@ -89,6 +89,41 @@ def m_into(I, st, fr, args, path, gargs, t):
     raise Stop('Into %s' % (gargs,))
 
 
+def _gty(fr, g):
+    """a generic argument with the frame's substitution applied"""
+    gs = getattr(fr, 'gsubst', None) or {}
+    return gs.get(g, g)
+
+
+@model(r'core::convert::Into::into')
+def m_into_unresolved(I, st, fr, args, path, gargs, t):
+    # trait-method call in a generic body (`i.into()` with T: Into<i128>): for primitive integers Into is the lossless From
+    x = args[0]
+    tys = [_gty(fr, g) for g in gargs if not g.startswith("'")]
+    to = tys[1] if len(tys) >= 2 else None
+    if isinstance(x, Int) and to in INT_RANGES:
+        if to == x.ty:
+            return x
+        slo, shi = INT_RANGES[x.ty]
+        tlo, thi = INT_RANGES[to]
+        if tlo <= slo and shi <= thi:
+            return I.cast(st, 'IntToInt', x, to)
+    raise Stop('Into %s of %r' % (gargs, x))
+
+
+@model(r'core::convert::TryFrom::try_from')
+def m_try_from_unresolved(I, st, fr, args, path, gargs, t):
+    # `T::try_from(i)` in a generic body with T: TryFrom<i128>: the primitive integer conversion once T is known
+    x = args[0]
+    tys = [_gty(fr, g) for g in gargs if not g.startswith("'")]
+    to = tys[0] if tys else None
+    if isinstance(x, Int) and to in INT_RANGES:
+        if to == x.ty:
+            return Agg(RESULT, 0, (x,))
+        return m_try_from_int(I, st, fr, args, 'core::convert::num::<impl core::convert::TryFrom<%s> for %s>::try_from' % (x.ty, to), gargs, t)
+    raise Stop('TryFrom %s of %r' % (gargs, x))
+
+
 @model(r'core::convert::num::<impl core::convert::From<' + INT + r'> for ' + INT + r'>::from')
 def m_from_int(I, st, fr, args, path, gargs, t):
     to = re.search(r'for ' + INT + '>::from', path).group(1)
@@ -898,6 +933,9 @@ def m_option_eq(I, st, fr, args, path, gargs, t):
     x, y = deref(I, st, a.fields[0]), deref(I, st, b.fields[0])
     if isinstance(x, Int) and isinstance(y, Int):
         return I.compare(st, 'Ne' if neg else 'Eq', x, y)
+    if isinstance(x, Agg) and isinstance(y, Agg) and x.kind == y.kind and x.variant is not None and y.variant is not None and not x.fields and not y.fields:
+        # field-less enum payloads (Option<Ordering>): derived equality compares the variants
+        return K(int((x.variant == y.variant) != neg), 'bool')
     raise Stop('Option eq payload %r %r' % (x, y))
 
 
